@@ -82,6 +82,28 @@ def explore(ctx):
                         ctx.violation('load raises {} for {!r} as {} (recogniser: {}({!r}))'.format(
                             c.real_out[1][:120], c.text, t, opname, pv),
                             dict(L.describe(c), key='escapes-pinned:{}:{}'.format(c.real_out[1].split(':')[0], c.text[:40])))
+    # integers too long for CPython's int -> str conversion (3.11+): they load, and nothing may try to print them
+    from typing import Dict as _D, List as _L
+
+    class _Big:
+        def __init__(self, x: int, y: int = 0) -> None:
+            self.x = x
+            self.y = y
+    big = '0x' + 'f' * 4000
+    for ty, text in ((_Big, '{x: %s}' % big), (_L[_Big], '[{x: 1}, {x: %s, y: 2}]' % big), (_D[str, _Big], '{k: {x: %s}}' % big),
+                     (int, big), (_L[int], '[1, %s]' % big), (_Big, '{x: 1, y: %s, z: 3}' % big), (_Big, '{x: %s, x: 2}' % big)):
+        try:
+            yatiml_.load_function(ty, _Big)(text)
+            res = 'ok'
+        except (yatiml_.RecognitionError, yaml_.YAMLError):
+            res = 'rec'
+        except Exception as e:  # noqa
+            res = 'other:' + type(e).__name__
+        ctx.case(('huge-int', repr(ty), len(text)), nontrivial=True)
+        ctx.count('huge_int:' + res.split(':')[0])
+        if res.startswith('other'):
+            ctx.violation('load raises {} for a document with a 4000-hex-digit integer (type {})'.format(
+                res[6:], getattr(ty, '__name__', ty)), dict(key='huge-int:' + res, text=text[:60] + '...'))
     # token soup and mutated text on a few fixed models
     rng = ctx.rng
     yaml, yatiml = L.setup()
